@@ -50,6 +50,8 @@ def compare(ctx: Ctx, h, rows, weights, wkind, what=""):
     incl = [bool(b.includes_right_edge) for b in h.binnings]
     for ps in axes_pairs:
         require(model.is_rising(ps), "bins_not_rising", f"{ps}")
+    # adaptivity is opt-in (no check in this module asks for it)
+    require(not h.is_adaptive(), "adaptive_by_default", f"{what}the histogram is adaptive although adaptive=True was not passed")
     m = model.histnd(axes_pairs, incl, rows, weights)
     shape = tuple(len(ps) for ps in axes_pairs)
     require(h.frequencies.shape == shape == h.errors2.shape, "shape", f"{what}{h.frequencies.shape} vs {shape}")
